@@ -32,7 +32,18 @@ def run_op(ex, st, builder, operands):
     body = "%s::{closure#0}" % builder
     if body not in ex.bodies:
         raise MirUnsupported("no MIR body %s" % body)
-    env = closure_env(ex, st, body, [const_eval(v) for v in operands])
+    # the closure captures its sub-evaluators by name (lhe / mhe / rhe); a capture the closure does not use is not in its
+    # environment, so the environment is built from the capture list of the builder's MIR, not from the operand count
+    names = {1: ["lhe"], 2: ["lhe", "rhe"], 3: ["lhe", "mhe", "rhe"]}.get(len(operands))
+    m = re.search(r"\{closure@[^}]*\} \{ ([^}]*) \}", ex.bodies[builder].text) if builder in ex.bodies else None
+    caps = [x.split(":")[0].strip() for x in m.group(1).split(",")] if m else None
+    if caps is not None and names is not None:
+        if not set(caps) <= set(names):
+            raise MirUnsupported("%s's closure captures %s, expected a subset of %s" % (builder, caps, names))
+        byname = dict(zip(names, operands))
+        env = closure_env(ex, st, body, [const_eval(byname[c]) for c in caps])
+    else:
+        env = closure_env(ex, st, body, [const_eval(v) for v in operands])
     scope = Ref(ex.new_cell(st, Opaque("Scope"), "scope"))
     yield from ex.run_body(st, ex.bodies[body], [env, scope])
 
